@@ -246,13 +246,15 @@ class HModel:
     """Closure model of (methods, prefers, hierarchy edges) with basilisp's documented semantics."""
 
     def __init__(self):
-        self.methods = set()
+        self.methods = {}       # dispatch value -> version of its body (every add installs a NEW body: a body reached
+        self.addn = {}          # through isa? or as default must be the one currently in the table)
         self.prefers = {}
         self.edges = set()
 
     def copy(self):
         m = HModel()
-        m.methods = set(self.methods)
+        m.methods = dict(self.methods)
+        m.addn = dict(self.addn)
         m.prefers = {k: set(v) for k, v in self.prefers.items()}
         m.edges = set(self.edges)
         return m
@@ -273,9 +275,10 @@ class HModel:
         """Returns None or the name of the exception the op must raise."""
         t = op[0]
         if t == "add":
-            self.methods.add(op[1])
+            self.addn[op[1]] = self.addn.get(op[1], 0) + 1
+            self.methods[op[1]] = self.addn[op[1]]
         elif t == "remove":
-            self.methods.discard(op[1])
+            self.methods.pop(op[1], None)
         elif t == "remove_all":
             self.methods.clear()
         elif t == "prefer":
@@ -296,7 +299,8 @@ class HModel:
     def merged(models):
         m = HModel()
         for x in models:
-            m.methods |= x.methods
+            m.methods.update(x.methods)
+            m.addn.update(x.addn)
             for k, v in x.prefers.items():
                 m.prefers.setdefault(k, set()).update(v)
             m.edges |= x.edges
@@ -334,19 +338,19 @@ def reference(m, v):
     a set of outcome tuples, or None when the case is disputed (anything goes)."""
     if v == DEFAULT:
         # the default key used as a dispatch value: its own method is an exact match
-        return {("M", DEFAULT)} if DEFAULT in m.methods else {("EXC", "NotImplementedError")}
+        return {("M", DEFAULT, m.methods[DEFAULT])} if DEFAULT in m.methods else {("EXC", "NotImplementedError")}
     cands = [k for k in m.methods if k != DEFAULT and m_isa(m, v, k)]
 
     def dom(x, y):
         return x != y and (y in m.prefers.get(x, ()) or m_isa(m, x, y))
     if not cands:
-        return {("M", DEFAULT)} if DEFAULT in m.methods else {("EXC", "NotImplementedError")}
+        return {("M", DEFAULT, m.methods[DEFAULT])} if DEFAULT in m.methods else {("EXC", "NotImplementedError")}
     undominated = [c for c in cands if not any(dom(d, c) for d in cands if d != c)]
     if len(undominated) >= 2:
         return {("EXC", "RuntimeException")}
     for c in cands:
         if all(dom(c, d) and not dom(d, c) for d in cands if d != c):
-            return {("M", c)}
+            return {("M", c, m.methods[c])}
     return None
 
 
@@ -381,6 +385,7 @@ class World:
         else:
             self.hier = _st["Atom"](_fns["make-hierarchy"]())
         self.ncalls = 0
+        self.addn = {}
         self.throw_at = workload.get("throw_dispatch")
         self.faults = {}
         self.mf = self.new_mf()
@@ -402,7 +407,9 @@ class World:
             self.hier.bind_root(self.saved_global)
 
     def method_for(self, key):
-        return lambda v, _k=key: ("M", _k)
+        # every (re-)definition is a new body with its own version, as a re-evaluated defmethod would be
+        self.addn[key] = n = self.addn.get(key, 0) + 1
+        return lambda v, _k=key, _n=n: ("M", _k, _n)
 
     def apply(self, op, mf=None):
         """Apply a mutation to the real objects; returns None or the exception class name."""
